@@ -243,7 +243,7 @@ def _run_chunk(task):
                 sig = (v["site"], v["clause"], v["cls"])
                 res["sigs"][sig] += 1
                 if res["sigs"][sig] <= 2 and len(res["violations"]) < MAX_VIOL_PER_CHUNK:
-                    res["violations"].append(dict(v, family=fam.name, index=i, case=fam.describe(case)))
+                    res["violations"].append(dict(v, family=fam.name, index=i, chunk_start=start, case=fam.describe(case)))
         # determinism self-check on a fixed 1/97 slice
         if i % 97 == 0:
             _case2, obs2 = fam.run_index(i, _SEED)
